@@ -59,6 +59,12 @@ def _integer_total(rng, occs):
     return occs
 
 
+def _title(rng):
+    n = int(rng.integers(1e6))
+    return [f"generated wavefunction {n}", f"wfn (run {n}; b3lyp/6-31g*) = 50% a/b #tag", f"wfn 'quoted' \"double\" x [y] {{z}} {n}",
+            f"wfn  two  blanks   inside {n}", f"{n}", f"wfn_{n}: E=-1.5e+01, <S^2>=0.75 & more"][int(rng.integers(6))]
+
+
 def make(rng, target, lmax=None, shell_order=None, contraction=None, conv_class=None, spin=None, virtuals=None, ghosts=None,
          nbasis_max=30, with_rdms=False, natom=None, pure_mix=False):
     """Return (IOData, features dict). All class choices are drawn when not given."""
@@ -195,7 +201,7 @@ def make(rng, target, lmax=None, shell_order=None, contraction=None, conv_class=
             aminusb = rng.uniform(0, 1, size=norb) * np.minimum(occs, 2 - occs)
         mo = MolecularOrbitals("restricted", norb, norb, occs, orth(norb), energies, None, aminusb)
     kw = dict(atnums=atnums, atcoords=atcoords, atcorenums=atcorenums, obasis=obasis, mo=mo, energy=float(rng.uniform(-200, -1)),
-              title=f"generated wavefunction {int(rng.integers(1e6))}")
+              title=_title(rng))
     if with_rdms and mo.kind != "generalized":
         ca, cb = mo.coeffsa, mo.coeffsb
         da = (ca * mo.occsa) @ ca.T
